@@ -30,10 +30,23 @@ def cold_tree(rng, variants, depth):
 
 def has_from_iter(pipe):
     if isinstance(pipe, list) and pipe:
-        if pipe[0] in ("iter", "repeat"):
+        if pipe[0] in ("iter", "repeat", "iterl"):
             return True
         return any(has_from_iter(x) for x in pipe[1:] if isinstance(x, list))
     return False
+
+
+def lazify(rng, pipe):
+    """half of the `iter` leaves become `iterl`: from_iter over a collection whose `into_iter()` is counted
+    like a user closure (laziness: it must not run before a subscription, and once per subscription)"""
+    if not isinstance(pipe, list) or not pipe:
+        return pipe
+    if pipe[0] == "iter":
+        return (["iterl"] + pipe[1:]) if rng.random() < 0.5 else pipe
+    if pipe[0] in pg.SOURCES:
+        return pipe
+    return [lazify(rng, x) if isinstance(x, list) and x and isinstance(x[0], str) and
+            x[0] not in ("n", "e", "p", "l", "s", "o") else x for x in pipe]
 
 
 def drop_taps_over_iter(pipe):
@@ -70,7 +83,7 @@ class C13(Prop):
         out = []
         n = 8000 if tier == "quick" else 80000
         for i in range(n):
-            pipe = drop_taps_over_iter(cold_tree(rng, variants, rng.randint(1, 5)))
+            pipe = lazify(rng, drop_taps_over_iter(cold_tree(rng, variants, rng.randint(1, 5))))
             evs = [["q", "counters"]]
             k = rng.randint(2, 4)
             for j in range(k):
@@ -311,7 +324,7 @@ class C13(Prop):
 def count_closures(pipe):
     n = 0
     if isinstance(pipe, list) and pipe:
-        if pipe[0] in ("offn", "start", "defer"):
+        if pipe[0] in ("offn", "start", "defer", "iterl"):
             n += 1
         for x in pipe[1:]:
             if isinstance(x, list) and x and isinstance(x[0], str) and x[0] not in ("n", "e", "p", "l", "s", "o"):
